@@ -3,12 +3,9 @@
    the stream (handle(StreamClosed)) and may raise. *)
 From Coq Require Import String Ascii ZArith NArith List Bool Lia.
 From HV Require Import lib.Bytes lib.Obs lib.Monad model.Asgi model.GuardTypes.
+From HV Require Export gen.Funcs_gen.   (* utils.suppress_body, translated from the source on every run *)
 Import ListNotations.
 Open Scope N_scope.
-
-(* utils.suppress_body *)
-Definition suppress_body (method : bytes) (status : Z) : bool :=
-  beqb method (B "HEAD") || ((100 <=? status)%Z && (status <? 200)%Z) || (status =? 204)%Z || (status =? 304)%Z.
 
 (* utils.build_and_validate_headers, one header *)
 Definition has_ctl (b : bytes) : bool := mem_byte 0 b || mem_byte 13 b || mem_byte 10 b.
